@@ -43,6 +43,35 @@ def is_par_name(n):
     return bool(re.search(r'rayon|par_iter|into_par_iter|ParallelIterator|par_sort|par_bridge|par_extend|par_chunks', n))
 
 
+def only_called_from_parallel_accessors(Fp, Fd, p, depth=0):
+    """every caller of the parallel-only function `p` is itself a parallel-only accessor (par_iter*, ParIterMut impls) or
+    another such helper"""
+    from mirinline import callee_of
+    callers = set()
+    for q, b in Fp.mir.items():
+        for blk in b['blocks']:
+            t = blk['term']
+            if t.get('t') == 'Call' and callee_of(t, Fp) == p:
+                callers.add(q.split('::{closure')[0])
+            # a function item passed as a value (`.filter(is_live)`) shows up as a constant operand
+            for st in blk['stmts']:
+                if p.split('::')[-1] in str(st) and p in str(st):
+                    callers.add(q.split('::{closure')[0])
+            if t.get('t') == 'Call' and p in str(t.get('args')):
+                callers.add(q.split('::{closure')[0])
+    callers.discard(p)
+    if not callers:
+        return False
+    for c in callers:
+        if c in Fd.mir:
+            return False            # reachable from code that also exists in the serial build
+        if re.search(r'par_iter|ParIterMut|ParallelIterator', c):
+            continue
+        if depth >= 3 or not only_called_from_parallel_accessors(Fp, Fd, c, depth + 1):
+            return False
+    return True
+
+
 def run(ctx):
     res = RuleResult('R-PAR', 'parallel and serial builds differ only at the maybe_parallel! sites; pipelines are order preserving')
     res.floor = 6
@@ -68,6 +97,10 @@ def run(ctx):
                 # closures of par_* accessors etc.
                 top = p.split('::{closure')[0]
                 if re.search(r'par_iter|ParIterMut', top):
+                    continue
+                if only_called_from_parallel_accessors(Fp, Fd, top):
+                    # a private helper of the parallel accessors (e.g. the liveness filter they share)
+                    res.ok('only-parallel/' + p, {'parallel_only_helper_of_par_accessors': p}, nontrivial=False)
                     continue
                 res.bad('only-parallel/' + p, 'the definition %s exists only in the parallel build' % p)
             continue
